@@ -291,6 +291,36 @@ def main(argv):
                                        "signature": {"stage": "gen", "backend": b, "class": "nondeterministic"}})
                         bad = True
                     run.count("generate_calls")
+        # a process with no history: every driver above has compiled all the earlier texts of this run (the same ones, in
+        # the same order), so state that survives between two compilations in one process is invisible to their comparison;
+        # a fresh process compiles this text only
+        fresh = C.driver(timeout=60)
+        for b in list(outs):
+            req = {"op": "gen", "backend": b, "text": text}
+            if b == "cxx":
+                req["namespace"] = "c11"
+            if b == "java":
+                jd = os.path.join(wd, "java-fresh")
+                shutil.rmtree(jd, ignore_errors=True)
+                os.makedirs(jd)
+                req.update({"output_dir": jd, "package": "p"})
+            g = fresh.ask(req)
+            if g is None or g.get("status") != "ok":
+                val = ("failed", (g or {}).get("status"))
+            elif b == "java":
+                val = ("ok", json.dumps(dir_digest(jd), sort_keys=True))
+            else:
+                val = ("ok", g["text"])
+            run.count("fresh_process_calls")
+            if outs[b] != val:
+                where = first_diff(outs[b][1], val[1]) if outs[b][0] == val[0] == "ok" and b != "java" else \
+                    (first_diff(outs[b][1], val[1]) if outs[b][0] == val[0] == "ok" else (outs[b][0], val[0]))
+                run.violation("impl", "the %s output of a process that compiled other descriptions before differs from that of a fresh process: %s"
+                              % (b, str(where)[:300]),
+                              {"pdl": text, "stage": "gen", "backend": b, "difference": where,
+                               "signature": {"stage": "gen", "backend": b, "class": "history-dependent"}})
+                bad = True
+        fresh.kill()
         # CLI vs library
         for b in TEXT_BACKENDS:
             if b not in outs or outs[b][0] != "ok":
